@@ -114,7 +114,7 @@ func (p *Plugin) OnEstablished(c corebgp.PeerConfig, w corebgp.UpdateMessageWrit
 		if p.Handle != nil {
 			r = p.Handle(p, s, n, b)
 		}
-		p.W.Append(Event{Kind: "Handler", Phase: "exit", Peer: p.Peer, Session: s, Conn: -1})
+		p.W.Append(Event{Kind: "Handler", Phase: "exit", Peer: p.Peer, Session: s, Conn: -1, Data: cp})
 		return r
 	}
 }
